@@ -164,6 +164,7 @@ class Unit:
             cmd += ['--append', e]
         for c in cfg.get('cuts', []):
             cmd += ['--cut', c]
+        cmd += list(cfg.get('ir2c_flags', []))  # opt-in translator options, e.g. ['--ptrdiff', '--flat-unions']
         t0 = time.time()
         rc, out, err, _, _ = sh(cmd)
         if rc != 0:
@@ -339,7 +340,8 @@ def run_cbmc(unit, q, work, tier):
     if parsed is None or parsed[0] is None:
         raise Inconclusive('%s: cbmc gave no result (rc=%d, mem cap %sGB?) %s %s' % (q.name, rc, mem, out[-800:], err[-800:]))
     results, msgs = parsed
-    fails = [r for r in results if r.get('status') != 'SUCCESS']
+    undecided = [r for r in results if r.get('status') not in ('SUCCESS', 'FAILURE')]
+    fails = [r for r in results if r.get('status') == 'FAILURE']
     q.res['properties_checked'] = len(results)
     wit = [r for r in fails if 'WITNESS' in r.get('description', '')]
     unw = [r for r in fails if 'unwinding assertion' in r.get('description', '')]
@@ -353,6 +355,9 @@ def run_cbmc(unit, q, work, tier):
         raise Inconclusive('%s: unmodelled external reached' % q.name)
     if bnd and not other:
         raise Inconclusive('%s: a stated model bound is too small (%s)' % (q.name, bnd[0].get('description')))
+    if undecided and not other:
+        raise Inconclusive('%s: solver returned no verdict for %d properties (status %s; memory cap %sGB or solver error) %s' % (
+            q.name, len(undecided), undecided[0].get('status'), mem, '; '.join(msgs[-3:])))
     if other:
         # candidate counterexample(s): prefer harness assertions ("H: ...")
         other.sort(key=lambda r: (0 if r.get('description', '').startswith('H: ') else 1))
